@@ -143,6 +143,13 @@ def run(tier, seed, replay=None):
         grid = [LSH_GRID[0]] + rng.sample(LSH_GRID[1:], 3 if tier == "quick" else 6)
         for (b, r, h, t) in grid:
             lsh_cases.append((pr, {"Files": pr.sources(), "Req": {"DFA": False, "LSHBands": b, "LSHRows": r, "LSHHash": h, "LSHThr": t}, "Raw": True, "LSH": True}))
+    # many identical fragments: all their band buckets fill up together
+    for copies in ([70] if tier == "quick" else [66, 70, 101, 130]):
+        pr = E.Project()
+        body = ["def same_%d(x):" % 0, "    total = 0", "    for item in range(x):", "        if item > 3:", "            total += item * 2", "        else:", "            total -= 1",
+                "    print(total)", "    return total"]
+        pr.files = [("many.py", [[ln.replace("same_0", "same_%d" % k) for ln in body] for k in range(copies)])]
+        lsh_cases.append((pr, {"Files": pr.sources(), "Req": {"DFA": False, "MinNodes": 5, "MinLines": 5, "LSHBands": 32, "LSHRows": 4, "LSHHash": 128, "LSHThr": 0.5}, "Raw": True, "LSH": True}))
     louts = C.harness_batch("clones", [c[1] for c in lsh_cases], jobs=14)
     llines, lown = [], []
     for ci, ((pr, inp), g) in enumerate(zip(lsh_cases, louts)):
